@@ -288,7 +288,7 @@ Proof.
         inversion Hwf' as [|? ? _ Hw]; subst.
         destruct (IH fs fs' rem Hs2 Hbytes Hst Hst' Hw) as [-> ->]. auto. }
   destruct Hout as [-> ->].
-  cbn [ro_dispatched ro_carry].
+  cbn [ro_dispatched ro_carry ro_errors].
   rewrite Hcat, !bytes_eqb_refl, (list_eqb_refl disp_eqb disp_eqb_refl). reflexivity.
 Qed.
 
